@@ -1,120 +1,11 @@
-// scratch probe (to be replaced by the executor)
-use std::time::Duration;
+//! X11 S->I executor: every case TLC generated from spec/ServerEdns.tla and
+//! spec/ServerRouting.tla is performed on the real stacks / helpers of
+//! domain::net::server and the complete observation compared.
+#[path = "../srvmw.rs"]
+mod srvmw;
 
-use domain::base::iana::{Class, Opcode, OptRcode, Rcode};
-use domain::base::message_builder::AdditionalBuilder;
-use domain::base::name::Name;
-use domain::base::opt::UnknownOptData;
-use domain::base::rdata::UnknownRecordData;
-use domain::base::record::Ttl;
-use domain::base::{Message, MessageBuilder, Rtype, StreamTarget};
-use domain::net::server::adapter::SingleServiceToService;
-use domain::net::server::message::{
-    NonUdpTransportContext, Request, TransportSpecificContext, UdpTransportContext,
-};
-use domain::net::server::middleware::edns::EdnsMiddlewareSvc;
-use domain::net::server::middleware::mandatory::MandatoryMiddlewareSvc;
-use domain::net::server::qname_router::QnameRouter;
-use domain::net::server::service::{CallResult, Service, ServiceResult};
-use domain::net::server::single_service::ReplyMessage;
-use domain::net::server::util::{add_edns_options, mk_builder_for_target, service_fn};
-use futures_util::StreamExt;
-
-fn mkreq(opcode: Opcode, qd: usize, opt: Option<(u16, u8)>, udp: bool) -> Request<Vec<u8>, ()> {
-    let mut b = MessageBuilder::new_vec();
-    b.header_mut().set_id(0x1234);
-    b.header_mut().set_opcode(opcode);
-    let mut q = b.question();
-    for _ in 0..qd {
-        q.push((Name::<Vec<u8>>::from_chars("a.example.com".chars()).unwrap(), Rtype::A))
-            .unwrap();
-    }
-    let mut a = q.additional();
-    if let Some((size, ver)) = opt {
-        a.opt(|o| {
-            o.set_udp_payload_size(size);
-            o.set_version(ver);
-            Ok(())
-        })
-        .unwrap();
-    }
-    let msg = a.into_message();
-    let ctx: TransportSpecificContext = if udp {
-        UdpTransportContext::new(Some(1232)).into()
-    } else {
-        NonUdpTransportContext::new(Some(Duration::from_secs(30))).into()
-    };
-    Request::new("127.0.0.1:5353".parse().unwrap(), tokio::time::Instant::now(), msg, ctx, ())
-}
-
-fn svc(req: Request<Vec<u8>, ()>, _m: ()) -> ServiceResult<Vec<u8>> {
-    let b = mk_builder_for_target();
-    let a = b.start_answer(req.message(), Rcode::NOERROR).unwrap();
-    Ok(CallResult::new(a.additional()))
-}
-
-fn show(tag: &str, r: &AdditionalBuilder<StreamTarget<Vec<u8>>>) {
-    let m = Message::from_octets(r.as_slice().to_vec()).unwrap();
-    println!(
-        "{tag}: rcode={} optrcode={} opt={:?} ar={} len={}",
-        m.header().rcode(),
-        m.opt_rcode(),
-        m.opt().map(|o| (
-            o.udp_payload_size(),
-            o.version(),
-            o.opt().iter::<UnknownOptData<_>>().map(|x| x.unwrap().code().to_int()).collect::<Vec<_>>()
-        )),
-        m.header_counts().arcount(),
-        r.as_slice().len()
-    );
-}
+use verif_harness::common::run_cases;
 
 fn main() {
-    let rt = tokio::runtime::Builder::new_current_thread().enable_time().build().unwrap();
-    rt.block_on(async {
-        // A: mandatory FORMERR / NOTIMP for a non-EDNS request
-        let stack = MandatoryMiddlewareSvc::new(EdnsMiddlewareSvc::new(service_fn(svc, ())));
-        for (tag, req) in [
-            ("A iquery noedns udp", mkreq(Opcode::IQUERY, 1, None, true)),
-            ("A qd2 noedns udp", mkreq(Opcode::QUERY, 2, None, true)),
-            ("A iquery edns udp", mkreq(Opcode::IQUERY, 1, Some((1232, 0)), true)),
-            ("E badvers tcp", mkreq(Opcode::QUERY, 1, Some((1232, 1)), false)),
-            ("E badvers udp", mkreq(Opcode::QUERY, 1, Some((1232, 1)), true)),
-            ("ok tcp", mkreq(Opcode::QUERY, 1, Some((1232, 0)), false)),
-        ] {
-            let mut s = stack.call(req).await;
-            let item = s.next().await.unwrap().unwrap();
-            let (r, _) = item.into_inner();
-            show(tag, &r.unwrap());
-        }
-        // B/D: router
-        let mut router: QnameRouter<Vec<u8>, Vec<u8>, (), ReplyMessage> = QnameRouter::new();
-        let inner: QnameRouter<Vec<u8>, Vec<u8>, (), ReplyMessage> = QnameRouter::new();
-        router.add(Name::<Vec<u8>>::from_chars("example.org".chars()).unwrap(), inner);
-        let rs = SingleServiceToService::new(router);
-        let mut s = rs.call(mkreq(Opcode::QUERY, 1, None, true)).await;
-        let item = s.next().await.unwrap().unwrap();
-        show("D nomatch noedns", &item.into_inner().0.unwrap());
-        let r = std::panic::catch_unwind(std::panic::AssertUnwindSafe(|| {
-            let _ = rs.call(mkreq(Opcode::QUERY, 0, None, true));
-        }));
-        println!("B qd0 panic={}", r.is_err());
-        // C: add_edns_options atomicity
-        let req = mkreq(Opcode::QUERY, 1, Some((1232, 0)), true);
-        let b = mk_builder_for_target::<Vec<u8>>();
-        let mut a = b.start_answer(req.message(), Rcode::NOERROR).unwrap().additional();
-        a.opt(|o| {
-            o.set_rcode(OptRcode::BADCOOKIE);
-            o.set_udp_payload_size(1400);
-            o.padding(4)
-        })
-        .unwrap();
-        show("C before", &a);
-        let l = a.as_slice().len();
-        a.set_push_limit(l + 10);
-        let res = add_edns_options(&mut a, |o| o.padding(40));
-        println!("C res={:?}", res);
-        show("C after", &a);
-        let _ = (Class::IN, Ttl::from_secs(0), UnknownRecordData::from_octets(Rtype::A, vec![0u8; 4]));
-    });
+    run_cases(|input| srvmw::run_case(input));
 }
